@@ -25,6 +25,16 @@ def main():
         s = simgen.gen_scenario(rng, dict(opts, nmarkets=[2, 3], group=rng.random() < 0.5, same_time=True, adjs=[1000, 250, 3300]))
         scs2.append(s)
     simcheck.run_family(ck, "removals_several_markets", scs2, propcheck.c09, "C09", "removal-multi")
+    # market-on-close LAY liabilities on surviving runners with small and large factors (the 2.5% threshold is for prices only)
+    scs3 = [simgen.gen_scenario(rng, dict(opts, kinds=["MOC"] * 5 + ["LOC", "L"], p_place=0.7, p_remove=0.5, p_inplay=0.3, p_bsp=1.0,
+                                          types=["WIN", "PLACE", "OTHER_PLACE"], adjs=[100, 150, 200, 249, 250, 1000, 3300]))
+            for _ in range(n // 2)]
+    simcheck.run_family(ck, "moc_lay_liability_small_and_large_factors", scs3, propcheck.c09, "C09", "removal-moc")
+    # a removal, then CLOSED, then the market is OPEN again in the same run: the removal stays applied once
+    scs4 = [simgen.gen_scenario(rng, dict(opts, p_remove=0.6, p_close=1.0, p_reopen=1.0, p_inplay=0.05, adjs=[1000, 2000, 3300, 250],
+                                          min_upd=5, max_upd=9))
+            for _ in range(n // 2)]
+    simcheck.run_family(ck, "removal_then_closed_and_reopened", scs4, propcheck.c09, "C09", "removal-reopen")
     return ck.finish("scenarios on the real FlumineSimulation with runner removals (factor None/0/2.49/2.5/2.51/10/33/99, before and after in-play, 1-2 removals per market) while orders rest, are partly filled, partly cancelled, lapsed, pending or have a request in flight; 1-3 markets per run sharing selection ids, sequential and event-grouped; WIN/PLACE/OTHER_PLACE/EACH_WAY; compared with the Coq model and checked by an independent re-computation of void/reduction")
 
 
